@@ -59,7 +59,7 @@ def run(V, tier, want, cfg="Layouts_cli.cfg"):
                 srv.did_open(path, r.text)
             for row in cases[0]["goto"]:
                 u = row["u"]
-                if u["file"] in ("tp", "tpi"):
+                if u["file"] == "tp":
                     continue
                 path = CLI.disk_path(root, u["file"])
                 ln, cs, ce = ctx.use_pos(u)
